@@ -551,7 +551,7 @@ def _install_limit_probes():
     """read-only observers on the real ParseContext: was a configured limit reached during this call?"""
     if _LIM_STATE.get("installed"):
         return
-        from sqlfluff.core.parser.context import ParseContext
+    from sqlfluff.core.parser.context import ParseContext
     from sqlfluff.core.linter.linter import Linter
     st = _LIM_STATE
     st.update(installed=True, hits=[], ntokens=[])
